@@ -1,6 +1,6 @@
 #!/bin/bash
 export SEED_OUT=/verif
-export VERIF_JOBS=8
+export VERIF_JOBS=4
 run() { [ -f /tmp/seed_$1/patch.diff ] || { echo "no patch for $1"; return; }; python3 vlib/seedtest.py /tmp/seed_$1 $2 $3 --isolated ${4:+--only $4} > /tmp/seedrun_$2.out 2>&1; tail -1 /tmp/seedrun_$2.out; }
 run C19c C19c C19
 run C13d C13d C13
